@@ -675,7 +675,14 @@ class SamplerExtractor(FunctionExtractor):
             if len(args) != 2:
                 raise ExtractionError('sampler ctor arity')
             atxt = [self.src[_off(a['range']['begin']):_end(a['range']['end'])] for a in args]
-            self.ed.replace(b, e, 'verif_%s_t %s = verif_%s_init(%s, %s)' % (kind, n['name'], kind, atxt[0], atxt[1]))
+            if n.get('storageClass') == 'static':
+                # a static sampler object is constructed once per process with the arguments of the FIRST call: keep that (R3b)
+                nm = n['name']
+                self.ed.replace(b, e, 'static verif_%s_t %s; static int %s__verif_init; if (!%s__verif_init) { %s = verif_%s_init(%s, %s); %s__verif_init = 1; }'
+                                % (kind, nm, nm, nm, nm, kind, atxt[0], atxt[1], nm))
+                self.rules.append('R3b')
+            else:
+                self.ed.replace(b, e, 'verif_%s_t %s = verif_%s_init(%s, %s)' % (kind, n['name'], kind, atxt[0], atxt[1]))
             self.rules.append('R9')
             self._skip_children = True
             return
